@@ -5,6 +5,7 @@ Line-protocol component for C13.  A case is a little program over named register
     nfa X <start> <f1,f2|->        add X <s> <a> <t1,t2|->        dfa X <start> <finals>      dadd X <s> <a> <t>
     todfa Y X   tonfa Y X   star Y X   union Y X1 X2 …   concat Y X1 X2 …   min Y X   elim Y X   reidx Y X
     clone Y X   rename Y X <s:t,s:t,…|->   combine Y X1 X2 …   iso X Y   equal X Y   dump X   states X   symbols X
+    setstart X <s>   setfinal X <sorted|stable|unordered> <f1,f2|->     (direct field assignment)
     acc X       (one bit per word of length ≤ k over the header's alphabet, shortest first)
     accw X <a1,a2,…|->
 
@@ -26,11 +27,11 @@ def commaInts (l : List Int) : String := ",".intercalate (l.map toString)
 
 def dumpNFA (n : NFA) : String :=
   let ts := n.trans.flatMap (fun st => st.2.map (fun e => s!"{st.1}/{e.1}/{commaInts e.2}"))
-  s!"n {n.start} {showInts n.final} [" ++ " ".intercalate ts ++ "]"
+  s!"n {n.start} {showInts (mkSet n.final)} [" ++ " ".intercalate ts ++ "]"
 
 def dumpDFA (d : DFA) : String :=
   let ts := d.trans.flatMap (fun st => st.2.map (fun e => s!"{st.1}/{e.1}/{e.2}"))
-  s!"d {d.start} {showInts d.final} [" ++ " ".intercalate ts ++ "]"
+  s!"d {d.start} {showInts (mkSet d.final)} [" ++ " ".intercalate ts ++ "]"
 
 def dumpReg : Reg → String
   | .nfa n => dumpNFA n
@@ -108,6 +109,24 @@ def step (sigma : List Int) (k : Nat) (rs : Regs) (line : String) : Step :=
     match getReg rs x, parseInt? s, parseInt? a, parseInt? t with
     | some (.dfa d), some s, some a, some t => .out (setReg rs x (.dfa (d.add s a t))) "ok"
     | _, _, _, _ => bad
+  | ["setstart", x, v] =>
+    -- direct assignment of the exported `Start` field
+    match getReg rs x, parseInt? v with
+    | some (.nfa n), some v => .out (setReg rs x (.nfa { n with start := v })) "ok"
+    | some (.dfa d), some v => .out (setReg rs x (.dfa { d with start := v })) "ok"
+    | _, _ => bad
+  | ["setfinal", x, kind, fs] =>
+    -- direct assignment of the exported `Final` field: `sorted` = NewStates, `stable` = set.NewStable (insertion
+    -- order), `unordered` = set.New (iteration order unspecified: such cases only compare languages)
+    match getReg rs x, parseList fs with
+    | some r, some fs =>
+      if kind = "sorted" ∨ kind = "stable" ∨ kind = "unordered" then
+        let fin := if kind = "sorted" then mkSet fs else fs.foldl (fun acc v => if acc.contains v then acc else acc ++ [v]) []
+        match r with
+        | .nfa n => .out (setReg rs x (.nfa { n with final := fin })) "ok"
+        | .dfa d => .out (setReg rs x (.dfa { d with final := fin })) "ok"
+      else bad
+    | _, _ => bad
   | ["dump", x] =>
     match getReg rs x with
     | some r => .out rs ("ok " ++ dumpReg r)
@@ -192,17 +211,23 @@ def step (sigma : List Int) (k : Nat) (rs : Regs) (line : String) : Step :=
     | _, _ => bad
   | _ => bad
 
-def runOps (sigma : List Int) (k : Nat) : Regs → List String → List String
+/-- ops whose output is a structure; in a `quiet=1` case (unordered `Final`) they print `ok` only -/
+def quietOps : List String :=
+  ["dump", "todfa", "tonfa", "star", "union", "concat", "min", "elim", "reidx", "clone", "rename", "combine"]
+
+def runOps (sigma : List Int) (k : Nat) (quiet : Bool) : Regs → List String → List String
   | _, [] => []
   | rs, l :: rest =>
     match step sigma k rs l with
-    | .out rs' o => o :: runOps sigma k rs' rest
+    | .out rs' o =>
+      let o' := if quiet && quietOps.contains ((words l).headD "") && o.startsWith "ok " then "ok" else o
+      o' :: runOps sigma k quiet rs' rest
     | .dead o => o :: rest.map (fun _ => "skip")
 
 def runCase (hdr : List String) (ops : List String) : List String :=
   let sigma := match headerGet hdr "sig" with
     | some s => (parseList s).getD [97, 98]
     | none => [97, 98]
-  runOps sigma (headerNat hdr "k" 5) [] ops
+  runOps sigma (headerNat hdr "k" 5) ((headerGet hdr "quiet").isSome) [] ops
 
 end AlgoVerif.C13.Driver
